@@ -158,6 +158,13 @@ impl Run<'_> {
             Phase::Outbound => vec![10, 11, 12],
             Phase::Connect => vec![],
         };
+        // ... preceded by a request the reader rejects by itself (unknown path: no handler runs); its error
+        // response is a response like any other and must not overtake the connect hooks' notifies either
+        if !pipelined.is_empty() {
+            if let Err(e) = client.send(request(5, "/no/such/method", 5)).await {
+                self.stuck(idx, &format!("pipelined request could not be written: {e}"));
+            }
+        }
         for n in pipelined {
             if let Err(e) = client.send(request(n, "/probe", n)).await {
                 self.stuck(idx, &format!("pipelined request could not be written: {e}"));
